@@ -650,6 +650,7 @@ fn continue_sequentially(sim: &mut Sim, out: &mut Vec<Viol>, drains: &mut u64, p
     sim.cfg.macro_finish = false;
     sim.draining = true;
     let mut ok = false;
+    let mut early_probe_done = false;
     for _ in 0..300 {
         let ob = sim.obligatory();
         let Some(&e) = ob.first() else {
@@ -659,6 +660,24 @@ fn continue_sequentially(sim: &mut Sim, out: &mut Vec<Viol>, drains: &mut u64, p
         let pre = checks::capture_pre(sim);
         let rep = sim.apply(e);
         out.extend(checks::check_step(&pre, e, &rep, sim).into_iter().filter(sound_under_concurrency));
+        // while an HTTP/2 attempt is in flight a further HTTP/2 request must wait for it: the first time the
+        // continuation sees such an attempt, a fresh HTTP/2 request for its origin is issued and polled once
+        if !early_probe_done && sim.cfg.allow_h2 {
+            let pending = world::with(|w| w.dials.iter().find(|d| d.owner_h2 && !d.dropped && checks::dial_pending(d.stage)).map(|d| d.origin.clone()));
+            if let Some(origin) = pending {
+                if let Some(o) = sim.cfg.origins.iter().position(|u| world::origin_of(&u.parse().unwrap()) == origin) {
+                    early_probe_done = true;
+                    *probes += 1;
+                    let p = sim.issue_probe(o as u8, true);
+                    let pre = checks::capture_pre(sim);
+                    let e = Ev::Poll(p);
+                    if sim.enabled().contains(&e) {
+                        let rep = sim.apply(e);
+                        out.extend(checks::check_step(&pre, e, &rep, sim).into_iter().filter(sound_under_concurrency));
+                    }
+                }
+            }
+        }
     }
     sim.draining = false;
     if !ok {
@@ -724,9 +743,9 @@ fn explore_state(cfg: &SimConfig, hist: &[Ev], seq_fps: &HashSet<Fp>, props: &[&
         let sim = Sim::replay(cfg, hist);
         sim.enabled().into_iter().filter(|e| is_op(*e)).map(|e| (e, actor_of(&sim, e))).collect()
     };
-    let envs: Vec<Ev> = {
+    let (envs, n_conns_now): (Vec<Ev>, u8) = {
         let sim = Sim::replay(cfg, hist);
-        sim.enabled().into_iter().filter(|e| is_env(*e)).collect()
+        (sim.enabled().into_iter().filter(|e| is_env(*e)).collect(), world::with(|w| w.conns.len()) as u8)
     };
     // operation || operation, then operation || environment event (the event is one atomic step that can land
     // between any two steps of the operation)
@@ -753,6 +772,26 @@ fn explore_state(cfg: &SimConfig, hist: &[Ev], seq_fps: &HashSet<Fp>, props: &[&
         }
     }
     let mut groups: Vec<Vec<Ev>> = pairs.into_iter().map(|(a, b)| vec![a, b]).collect();
+    if cfg.ev_close && cfg.name.contains("fresh-close") {
+        // a connection that an operation creates and registers can be closed by its peer, and another request
+        // can arrive, before the same operation reaches its next critical section (the check-out that completed
+        // is dropped only after the inner service has been called): operation || close of the connection it
+        // is about to create || a new request
+        let fresh = Ev::ConnClose(n_conns_now);
+        for &(a, _) in &ops {
+            if !matches!(a, Ev::Poll(_) | Ev::RunBg(_)) {
+                continue;
+            }
+            groups.push(vec![a, fresh]);
+            if issued_now + 1 <= cfg.max_requests {
+                for &(b, _) in &ops {
+                    if matches!(b, Ev::Issue { .. }) {
+                        groups.push(vec![a, fresh, b]);
+                    }
+                }
+            }
+        }
+    }
     if triples {
         // three overlapping operations of three different actors
         for i in 0..ops.len() {
